@@ -61,7 +61,7 @@ EdgeRank(kind, f) ==
    CASE kind = "root" -> RankIn(<<"components", "info", "paths", "servers", "tags", "externalDocs">>, f)
      [] kind = "components" -> RankIn(<<"schemas", "parameters", "requestBodies", "responses", "headers", "securitySchemes",
                                         "examples", "links", "callbacks">>, f)
-     [] kind = "pathItem" -> RankIn(<<"delete", "get", "head", "options", "patch", "post", "put", "trace", "parameters", "servers">>, f)
+     [] kind = "pathItem" -> RankIn(<<"connect", "delete", "get", "head", "options", "patch", "post", "put", "trace", "parameters", "servers">>, f)
      [] kind = "operation" -> RankIn(<<"parameters", "requestBody", "responses", "externalDocs", "servers", "callbacks">>, f)
      [] kind = "response" -> RankIn(<<"content", "headers", "links">>, f)
      [] kind = "mediaType" -> RankIn(<<"schema", "examples", "encoding">>, f)
